@@ -4,7 +4,7 @@
 (* Every operator returns a set of failure records [p, why, key]; the empty  *)
 (* set means the contract holds.  `key` names a listed known finding when    *)
 (* the failure is exactly that finding's deviation, else "".                 *)
-EXTENDS Ranking, Utility, Majority, Req
+EXTENDS Ranking, Utility, Majority, Levels, AspectElim, Satisfaction, Req
 
 Fail(p, why, key) == [p |-> p, why |-> why, key |-> key]
 
@@ -139,6 +139,129 @@ C11(o) ==
                    /\ \E k \in 1..n : RLinks(res[k]) # MajRef(st, ord, pol, <<>>)[k].links
                    /\ Determined(RefEntries(MajRef(st, ord, pol, <<>>))) = Determined(es)
                 THEN {Fail("DRIFT", "majority-links", "")} ELSE {})
+
+
+(* ---- aspiration levels of the two threshold heuristics, derived from the state handed to the method ---- *)
+StCrits(st) == [k \in DOMAIN st.criteria |-> st.criteria[k]]
+LvCD == 1024
+HLevels(o, st, dir) ==
+  LET lp == st.levelParams IN
+  IF lp.kind = "thresholds" THEN lp.thresholds
+  ELSE LGenerated(dir, st.params.Function, (lp.minValue * LD) \div U(o), (lp.maxValue * LD) \div U(o),
+                  (lp.coefficient * LvCD) \div U(o), LvCD, StCrits(st), StAllAlts(st))
+HLevelsExact(o, st, dir) ==
+  LET lp == st.levelParams IN
+  IF lp.kind = "thresholds" THEN TRUE
+  ELSE LGeneratedExact(dir, st.params.Function, (lp.minValue * LD) \div U(o), (lp.maxValue * LD) \div U(o),
+                       (lp.coefficient * LvCD) \div U(o), LvCD, StCrits(st), StAllAlts(st))
+
+(* ---- C12: aspect elimination ---- *)
+AEWeights(st) == st.params.Weights
+AECritOrders(st) ==
+  LET w == AEWeights(st) IN
+  {p \in PermsOf(StCritIds(st)) : \A k \in 1..(Len(p) - 1) : w[p[k]] >= w[p[k+1]]}
+AEOrders(st) == IF st.params.RandomAlternativesOrdering THEN PermsOf(SeqSet(ConsideredSeq(st))) ELSE {ConsideredSeq(st)}
+AECtx(st, levels, corder) == [levels |-> levels, corder |-> corder, ty |-> StType(st), x |-> StX(st)]
+AEObs(res) == [k \in DOMAIN res |->
+   [id |-> res[k].alternative.id, level |-> res[k].evaluation.thresholdsIndex, thr |-> res[k].evaluation.notSatisfiedThreshold]]
+AERefKey(e) == [id |-> e.id, level |-> e.level, crits |-> IF e.crit = "" THEN {} ELSE {e.crit},
+                thr |-> IF e.crit = "" THEN 0 ELSE e.thr]
+AEObsKey(e) == [id |-> e.id, level |-> e.level, crits |-> DOMAIN e.thr,
+                thr |-> IF DOMAIN e.thr = {} THEN 0 ELSE e.thr[CHOOSE c \in DOMAIN e.thr : TRUE]]
+(* equal up to the order inside one elimination class (same check) and among the survivors *)
+AEMatches(ref, obs) ==
+  /\ Len(ref) = Len(obs)
+  /\ \A p \in DOMAIN ref :
+        LET cls == {q \in DOMAIN ref : ref[q].chk = ref[p].chk} IN
+        {AERefKey(ref[q]) : q \in cls} = {AEObsKey(obs[q]) : q \in cls}
+
+C12(o) ==
+  LET st == EvalState(o)
+      res == Res(o)
+      obs == AEObs(res)
+      levels == HLevels(o, st, "inc")
+      w == AEWeights(st)
+      ty == StType(st)
+      x == StX(st)
+      below(a, li, c) == IF ty[c] = "cost" THEN x[a][c] > levels[li][c] ELSE x[a][c] < levels[li][c]
+      exact == HLevelsExact(o, st, "inc")
+      elimOK(e) ==
+         \/ DOMAIN e.thr = {}
+         \/ /\ Cardinality(DOMAIN e.thr) = 1
+            /\ e.level + 1 \in DOMAIN levels
+            /\ LET c == CHOOSE c \in DOMAIN e.thr : TRUE IN
+               /\ c \in StCritIds(st)
+               /\ e.thr[c] = levels[e.level + 1][c]
+               /\ below(e.id, e.level + 1, c)
+               /\ \A li \in 1..e.level : \A d \in StCritIds(st) : ~below(e.id, li, d)
+               /\ \A d \in StCritIds(st) : w[d] > w[c] => ~below(e.id, e.level + 1, d)
+      (* survivors first, then the eliminated with non-increasing level index *)
+      shapeOK ==
+         /\ \A k \in 1..(Len(obs) - 1) : (DOMAIN obs[k].thr # {}) => (DOMAIN obs[k+1].thr # {} /\ obs[k].level >= obs[k+1].level)
+         /\ \A k \in DOMAIN obs : (DOMAIN obs[k].thr = {}) =>
+               /\ \A j \in DOMAIN obs : obs[j].level <= obs[k].level
+               /\ obs[k].level <= Len(levels)
+         /\ (Len(obs) >= 1 => DOMAIN obs[1].thr = {})
+         (* more than one survivor only when the levels ran out *)
+         /\ (Cardinality({k \in DOMAIN obs : DOMAIN obs[k].thr = {}}) > 1 => obs[1].level = Len(levels))
+      searchable == Len(obs) <= (IF Has(o.case, "refmax") THEN o.case.refmax ELSE 4)
+                    \/ (~st.params.RandomAlternativesOrdering /\ Cardinality(AECritOrders(st)) = 1)
+  IN IF ~exact THEN {}
+     ELSE (IF \A k \in DOMAIN obs : elimOK(obs[k]) THEN {} ELSE {Fail("C12", "entry", "")})
+          \cup (IF shapeOK THEN {} ELSE {Fail("C12", "shape", "")})
+          \cup (IF ~searchable THEN {}
+                ELSE IF \E order \in AEOrders(st) : \E co \in AECritOrders(st) :
+                          AEMatches(AERanking(AERun(AEInit(order), AECtx(st, levels, co))), obs)
+                THEN {} ELSE {Fail("C12", "reference", "")})
+          \cup (IF SequentialLinksOK(res) THEN {} ELSE {Fail("DRIFT", "aspect-links", "")})
+
+(* ---- C13: satisfaction heuristic ---- *)
+SWorst(st) == [c \in StCritIds(st) |->
+                 LET rg == LRange(StCrit(st, c), StAllAlts(st)) IN
+                 IF StCrit(st, c).type = "cost" THEN rg.max ELSE rg.min]
+SCtx(st, levels) == [levels |-> levels, C |-> StCritIds(st), ty |-> StType(st), x |-> StX(st), worst |-> SWorst(st)]
+SObs(res) == [k \in DOMAIN res |->
+   [id |-> res[k].alternative.id, level |-> res[k].evaluation.thresholdsIndex, thr |-> res[k].evaluation.satisfiedThresholds]]
+SOrders(st) ==
+  IF ~st.params.RandomAlternativesOrdering THEN {MajFixedOrder(st)}
+  ELSE LET cur == st.params.CurrentChoice
+           rest == SeqSet(ConsideredSeq(st)) \ {cur}
+       IN IF cur = "" THEN PermsOf(rest) ELSE {<<cur>> \o p : p \in PermsOf(rest)}
+SameMap(f, g) == DOMAIN f = DOMAIN g /\ \A c \in DOMAIN f : f[c] = g[c]
+SMatches(ref, obs, nlev) ==
+  /\ Len(ref) = Len(obs)
+  /\ \A k \in DOMAIN ref :
+        IF ref[k].level < nlev
+        THEN ref[k].id = obs[k].id /\ ref[k].level = obs[k].level /\ SameMap(ref[k].thr, obs[k].thr)
+        ELSE obs[k].level = nlev
+  /\ {ref[k].id : k \in {j \in DOMAIN ref : ref[j].level = nlev}} = {obs[k].id : k \in {j \in DOMAIN obs : obs[j].level = nlev}}
+
+C13(o) ==
+  LET st == EvalState(o)
+      res == Res(o)
+      obs == SObs(res)
+      levels == HLevels(o, st, "dec")
+      nlev == Len(levels)
+      ctx == SCtx(st, levels)
+      exact == HLevelsExact(o, st, "dec")
+      entryOK(e) ==
+         IF e.level < nlev /\ e.level >= 0
+         THEN /\ SameMap(e.thr, levels[e.level + 1])
+              /\ SGood(ctx, e.id, e.level + 1)
+              /\ \A li \in 1..e.level : ~SGood(ctx, e.id, li)
+         ELSE /\ e.level = nlev
+              /\ SameMap(e.thr, SWorst(st))
+              /\ \A li \in 1..nlev : ~SGood(ctx, e.id, li)
+      orderOK == \A k \in 1..(Len(obs) - 1) : obs[k].level <= obs[k+1].level
+      searchable == Len(obs) <= (IF Has(o.case, "refmax") THEN o.case.refmax ELSE 5) \/ ~st.params.RandomAlternativesOrdering
+  IN IF ~exact THEN {}
+     ELSE (IF \A k \in DOMAIN obs : entryOK(obs[k]) THEN {} ELSE {Fail("C13", "entry", "")})
+          \cup (IF orderOK THEN {} ELSE {Fail("C13", "order", "")})
+          \cup (IF ~searchable THEN {}
+                ELSE IF \E order \in SOrders(st) :
+                          SMatches(SRanking(SRun(SInit(order), ctx), ctx), obs, nlev)
+                THEN {} ELSE {Fail("C13", "reference", "")})
+          \cup (IF SequentialLinksOK(res) THEN {} ELSE {Fail("DRIFT", "satisfaction-links", "")})
 
 (* summary of one alternative that must not depend on the listing order *)
 PermSummary(o) ==
